@@ -1041,6 +1041,8 @@ class Interp:
                 ci = self.conc_int(idx)
                 keys = list(v.f.keys())
                 return v.f[keys[ci]]
+        if isinstance(v, LibRef):
+            return v  # generic alias such as dict[str, Array]
         h = self.models.get("getitem")
         if h:
             return h(self, v, idx)
